@@ -29,7 +29,8 @@ Record cfg := mkCfg { qcap : nat; blimit : nat; fcap : nat; nwork : nat }.
 Inductive outcome := Ok | ConnFail | DelFail.
 
 Inductive event :=
-| Accept (it : item)          (* ATSourceManager.BranchCommit -> AsyncWorker.BranchCommit *)
+| Accept (it : item)          (* ATSourceManager.BranchCommit -> AsyncWorker.BranchCommit: the queue send completes *)
+| Refuse (it : item)          (* the same call, but its context is done first: refused, NOT queued *)
 | Recv                        (* run: case phaseCtx := <-aw.commitQueue *)
 | Tick                        (* run: case <-ticker.C *)
 | Submit                      (* run: commitWorker.Do completes its channel send *)
@@ -38,6 +39,9 @@ Inductive event :=
 | Appear (r : N).             (* a resource is registered in the resource cache *)
 
 Definition st_committed : N := 5.    (* branch.BranchStatusPhasetwoCommitted *)
+Definition st_retryable : N := 6.    (* branch.BranchStatusPhasetwoCommitFailedRetryable (+ ctx.Err()) *)
+Definition committed_of (a : list (item * N)) : list item :=
+  map fst (filter (fun p => N.eqb (snd p) st_committed) a).
 
 Record state := mkState {
   queue : list item;
@@ -155,6 +159,10 @@ Definition step (c : cfg) (e : event) (s : state) : state :=
                    (accepted s ++ [it]) (answers s ++ [(it, st_committed)])
                    (deleted s) (removed s) (dropped s)
       else s
+  | Refuse it =>
+      mkState (queue s) (buf s) (blocked s) (fan s) (flight s) (table s) (known s)
+              (accepted s) (answers s ++ [(it, st_retryable)])
+              (deleted s) (removed s) (dropped s)
   | Recv =>
       match blocked s, queue s with
       | None, it :: q =>
